@@ -54,6 +54,9 @@ var chans = []string{"a/", "a/b/", "c/", "a/", "a/b/", "a/", "x/y/", "y/x/", lon
 func genCase(class string) func(t *rapid.T) Case {
 	return func(t *rapid.T) Case {
 		c := Case{N: rapid.IntRange(2, 4).Draw(t, "n"), Class: class}
+		if class == "L" { // a link flaps inside a cluster that stays connected: three or four brokers, full mesh
+			c.N = rapid.IntRange(3, 4).Draw(t, "nl")
+		}
 		if class == "J" { // late joiner: mostly two brokers (with more, full states of two brokers about a third one differ in their add times: the listed double-count finding)
 			c.N = rapid.SampledFrom([]int{2, 2, 2, 3}).Draw(t, "nj")
 		}
@@ -100,10 +103,13 @@ func genCase(class string) func(t *rapid.T) Case {
 				op.A, op.B2 = link()
 			case k >= 21 && k < 23 && class == "J":
 				op.K = "join"
+			case k >= 21 && k < 25 && class == "L":
+				op.K = rapid.SampledFrom([]string{"flaplink", "flaplink", "restorelink"}).Draw(t, "lk")
+				op.A, op.B2 = link()
 			case k < 23 && (class == "A" || class == "A'" || class == "C"):
 				op.K = "fullsync"
 				op.A, op.B2 = link()
-			case k < 27 && class != "A":
+			case k < 27 && class != "A" && !(class == "L" && k < 25):
 				op.K = rapid.SampledFrom([]string{"pick", "deliver", "deliver"}).Draw(t, "tk")
 				op.A, op.B2 = link()
 			case k < 29 && class == "C":
@@ -116,6 +122,18 @@ func genCase(class string) func(t *rapid.T) Case {
 				op.K = "sub"
 			}
 			c.Ops = append(c.Ops, op)
+			if class == "L" && (op.K == "unsub" || op.K == "disc" || op.K == "sub" || op.K == "flap") && rapid.IntRange(0, 2).Draw(t, "losenow") == 0 {
+				// the link from the client's broker to another broker breaks right now: the update just queued for it is lost
+				a := c.Home[op.C]
+				b := rapid.IntRange(0, c.N-2).Draw(t, "lossb")
+				if b >= a {
+					b++
+				}
+				c.Ops = append(c.Ops, Op{K: "flaplink", A: a, B2: b})
+				if rapid.Bool().Draw(t, "restorenow") {
+					c.Ops = append(c.Ops, Op{K: "restorelink"})
+				}
+			}
 		}
 		if class == "J" {
 			c.Ops = append(c.Ops, Op{K: "join"}, Op{K: "check"})
@@ -280,6 +298,17 @@ func run(c Case) (res vkit.Result) {
 	}
 	checkRoutes := func(step int, why string) string {
 		net.Quiesce()
+		if c.Class == "L" {
+			// what a lost message withheld is repaired by the periodic full-state exchange between neighbours: one round
+			for a := range brokers {
+				for b := range brokers {
+					if a != b && !net.LinkDown(a, b) {
+						net.Periodic(a, b)
+					}
+				}
+			}
+			net.Quiesce()
+		}
 		for j := range brokers {
 			for _, ch := range []string{"a/", "a/b/", "c/", "a/b/x/", "x/y/", "y/x/", longCh} {
 				if g, w := gotRemote(j, ch), wantRemote(j, ch); fmt.Sprint(g) != fmt.Sprint(w) {
@@ -290,6 +319,7 @@ func run(c Case) (res vkit.Result) {
 		return ""
 	}
 	nontrivial, endedOne := false, false
+	downA, downB := -1, -1
 	for step, op := range c.Ops {
 		switch op.K {
 		case "sub", "unsub":
@@ -404,6 +434,20 @@ func run(c Case) (res vkit.Result) {
 						}
 					}
 				}
+			}
+		case "flaplink":
+			// the connection between two brokers breaks while both stay reachable through the others: nobody is garbage
+			// collected, what was queued or on the wire of that link is lost, later traffic is routed around it
+			if downA >= 0 {
+				net.Reconnect(downA, downB)
+			}
+			downA, downB = op.A, op.B2
+			net.Disconnect(op.A, op.B2)
+			labels["link-flapped-without-gc"] = true
+		case "restorelink":
+			if downA >= 0 {
+				net.Reconnect(downA, downB)
+				downA = -1
 			}
 		case "join":
 			x := c.N - 1
@@ -569,6 +613,7 @@ func TestClassB(t *testing.T)      { vkit.Check(t, genCase("B"), run) }
 func TestClassC(t *testing.T)      { vkit.Check(t, genCase("C"), run) }
 func TestClassD(t *testing.T)      { vkit.Check(t, genCase("D"), run) }
 func TestClassJ(t *testing.T)      { vkit.Check(t, genCase("J"), run) }
+func TestClassL(t *testing.T)      { vkit.Check(t, genCase("L"), run) }
 
 // TestProbes replays the minimal reproduction of each listed finding.
 func TestProbes(t *testing.T) {
